@@ -257,3 +257,18 @@ theorem divInv_sel (full : List Int) (n : Nat) (parts : Nat → List Row) (P : L
     exact hinv.rowsSorted _ (hlt _ (List.getElem_mem hj))
 
 end Dx.Parts
+
+namespace Dx.Parts
+
+/-- indexing a list by a list of valid positions never fails -/
+theorem pick_valid (Q : List Nat) : ∀ (P : List Nat), (∀ p ∈ P, p < Q.length) →
+    pick Q P = some (P.map (fun i => Q.getD i 0)) := by
+  intro P
+  induction P with
+  | nil => intro _; rfl
+  | cons p t ih =>
+    intro h
+    have hp : p < Q.length := h p (List.mem_cons_self ..)
+    simp [pick, ih (fun x hx => h x (List.mem_cons_of_mem _ hx)), List.getElem?_eq_getElem hp]
+
+end Dx.Parts
